@@ -88,3 +88,13 @@ def c14(ctx, t0):
     floors = {'writes:hmac_sha256_scrypt': (counters(res, 'writes:hmac_sha256_scrypt'), 50), 'writes:argon2id': (counters(res, 'writes:argon2id'), 50),
               'writes:rewrite-same-password': (counters(res, 'writes:rewrite-same-password'), 10), 'files_scanned_for_secrets': (counters(res, 'files_scanned_for_secrets'), 40)}
     return finish(ctx, 'exploration', res, COMMON_ASSUME + ['digest recomputation uses x/crypto scrypt/argon2 + crypto/hmac directly from the generated YAML values (r,p omitted or <= 0 => 8,1)'], floors, t0)
+
+
+@plan('C03')
+def c03(ctx, t0):
+    hx = ctx.build_hx()
+    res = []
+    if want(ctx, 'snapshot'):
+        res.append(ctx.run_child('snapshot', [hx, 'c03'], T(ctx, 300, 1200)))
+    floors = {'planted_auth_probes': (counters(res, 'planted_auth_probes'), 10), 'control_names': (counters(res, 'control_names'), 5)}
+    return finish(ctx, 'exploration', res, COMMON_ASSUME + ['the monitor applies the grammar ^[A-Za-z0-9][-_.@A-Za-z0-9]*$ itself (go/ref NameValid)'], floors, t0)
